@@ -108,9 +108,12 @@ func (m *Manager) checkAndPrune() {
 
 type Transaction struct {
 	writtenCaches map[string]*sharedCacheElem
-	mu            sync.Mutex
-	manager       *Manager
-	failed        atomic.Bool
+	// Every shared cache this transaction holds a write lock on. It can hold
+	// more than one per name if a cache was evicted and recreated in between.
+	lockedCaches []*sharedCacheElem
+	mu           sync.Mutex
+	manager      *Manager
+	failed       atomic.Bool
 }
 
 func (m *Manager) NewTransaction() *Transaction {
@@ -196,13 +199,17 @@ func (t *Transaction) With(name string, readOnly bool, createFn func() (Cachable
 			 * to ensure other readers or writers do not see partial results.
 			 * Within a transaction a writer can write to multiple caches, e.g.
 			 * multiple indices. */
-			if _, ok := t.writtenCaches[name]; !ok {
+			/* We compare the cache itself and not just the name because the
+			 * cache we locked earlier may have been evicted and a new one
+			 * created under the same name by a reader, that one is not ours. */
+			if w, ok := t.writtenCaches[name]; !ok || w != existingCache {
 				/****************************
 				 * Please do not forget to unlock after the transaction is
 				 * complete.
 				 ***************************/
 				existingCache.mu.Lock()
 				t.writtenCaches[name] = existingCache
+				t.lockedCaches = append(t.lockedCaches, existingCache)
 			}
 			t.mu.Unlock()
 		}
@@ -267,6 +274,7 @@ func (t *Transaction) With(name string, readOnly bool, createFn func() (Cachable
 		s.mu.Lock()
 		t.mu.Lock()
 		t.writtenCaches[name] = s
+		t.lockedCaches = append(t.lockedCaches, s)
 		t.mu.Unlock()
 		// defer s.mu.Unlock()
 	}
@@ -294,12 +302,16 @@ func (t *Transaction) Commit(fail bool) {
 	t.manager.mu.Lock()
 	defer t.manager.mu.Unlock()
 	failed := t.failed.Load() || fail
-	for name, s := range t.writtenCaches {
+	for name := range t.writtenCaches {
 		if failed {
-			s.scrapped = true
 			delete(t.manager.sharedCaches, name)
 		}
 		log.Debug().Str("name", name).Bool("failed", failed).Msg("Committing cache")
+	}
+	for _, s := range t.lockedCaches {
+		if failed {
+			s.scrapped = true
+		}
 		// Recall that we should be holding all the write locks to these caches within the transaction
 		s.mu.Unlock()
 	}
